@@ -4,7 +4,7 @@ from harness.props import base
 
 PROP = {
     "id": "C01",
-    "quick_n": 260,
+    "quick_n": 400,
     "thorough_n": 6000,
     "rule": "one program = a tree spec (19 primitives, depth<=3; dyadic and non-dyadic families), "
             "a stream over the tree's critical values (edges, midpoints, thresholds, +-ulp, nan, "
